@@ -14,7 +14,7 @@ INF = math.inf
 
 def lengths(ctx):
     # 49.0 and 107.0: lengths whose rounded reciprocal gives L * (1/L) < 1 (breaks multiply-by-inverse shortcuts)
-    ls = [1.0, 0.3, 12.836, 10.0, 2.0 ** -3, 1000.0, 49.0, 107.0]
+    ls = [1.0, 0.3, 12.836, 10.0, 2.0 ** -3, 1000.0, 49.0, 107.0, 8.0, 18.6]
     if ctx.thorough:
         ls += [0.1, 0.7, 3.0, 7.3, 2.5, 1e-3, 31.4159, 6.0]
     return ls
@@ -25,6 +25,7 @@ def positions(L, ctx):
     ps = []
     for c in (0.0, L, -L, 2 * L, -2 * L, 0.5 * L, 1.5 * L, -0.5 * L, 7 * L, -7 * L):
         ps += around(c, k)
+    ps += [-k * 2.0 ** -56 * L for k in range(1, 9)] + [-2.3e-16, -3e-16, -1e-15, -1e-16, -4e-16 * L]
     ps += [-5e-324, 5e-324, -1e-17, 1e-17, -0.0, -1e-300, -2.0 ** -60 * L, -2.0 ** -54 * L, -2.0 ** -53 * L,
            0.25 * L, 0.75 * L, L / 3.0, -L / 3.0, 1e6 * L, -1e6 * L, 1e6 * L + 0.3 * L, -(2.0 ** 40) * L,
            123456.789 * L, 0.1 * L, 0.9 * L]
